@@ -10,6 +10,57 @@ import vlib
 from checks.common import Check
 
 
+def features(b):
+    """What a TLC behaviour exercises, per signed entity type: used to pick a covering subset for replay."""
+    f = set()
+    expired = {}
+    signed = {}
+    for s in b["steps"]:
+        a = s["a"]
+        if a == "Sign":
+            en = tuple(s["entity"])
+            kind = en[0]
+            v = s.get("variant", "ok")
+            if v == "bad":
+                f.add(("bad", kind))
+            elif s["who"] != s["label"]:
+                f.add(("relabel", kind))
+            if v == "ok":
+                signed.setdefault(en, set()).add(s["who"])
+                if en in expired:
+                    expired[en].add(s["who"])
+                    # enough late signers to reach a quorum on an expired open message
+                    f.add(("signed_after_expiry", kind, min(len(signed[en]), 2)))
+        elif a == "Expire":
+            en = tuple(s["entity"])
+            expired[en] = set()
+            f.add(("expire", en[0]))
+        elif a == "EpochUp":
+            f.add(("epoch_up", s.get("n", 1)))
+        elif a == "Crash":
+            f.add(("crash", s.get("at")))
+        elif a == "Restart":
+            f.add(("restart",))
+        elif a == "ImmUp":
+            f.add(("imm_up",))
+    return f
+
+
+def cover(behaviours, budget):
+    """Greedy: behaviours that together exhibit every feature seen, richest in certificates first."""
+    pool = sorted(behaviours, key=lambda b: -b["ncerts"])[:4000] + behaviours[:2000]
+    feats = [(features(b), b) for b in pool]
+    todo = set().union(*[f for f, _ in feats]) if feats else set()
+    out = []
+    while todo and len(out) < budget:
+        f, b = max(feats, key=lambda fb: (len(fb[0] & todo), fb[1]["ncerts"]))
+        if not f & todo:
+            break
+        out.append(b)
+        todo -= f
+    return out
+
+
 def run_agg_harness(c, args, timeout=7000):
     """c14_agg logs heavily on stdout (the repository's test logger): stdout is discarded, the summary comes on stderr."""
     cmd = [vlib.harness_bin("c14_agg")] + [str(a) for a in args]
@@ -48,7 +99,9 @@ def run(prop, tier, seed, select, level="model_checking"):
     th = tier == "thorough"
     # MC: exhaustive small configuration + paced simulation of the 3-party model (the faithful model does not
     # finish exhaustively with 2+ parties: > 2*10^7 states)
-    c.mc("aggregator", "MC_Aggregator", "MC_Aggregator_quick.cfg", workers=12, timeout=3000,
+    # (C14 explores one more certificate per run than C15 / C16 in the quick tier: all three entity types certified)
+    c.mc("aggregator", "MC_Aggregator", "MC_Aggregator_quick.cfg" if prop == "C14" or th else "MC_Aggregator_quick3.cfg",
+         workers=12, timeout=3000,
          vacuity=["InsertCertificate", "MarkCertified", "StoreArtifact", "Restart", "TickSigningLeave"])
     if th:
         c.mc("aggregator", "MC_Aggregator", "MC_Aggregator_thorough.cfg", workers=14, timeout=3400, heap="24g")
@@ -60,7 +113,10 @@ def run(prop, tier, seed, select, level="model_checking"):
     behaviours = vlib.printed_json(g, "SCHED")
     if len(behaviours) < 200:
         raise vlib.ToolError("GEN produced too few behaviours")
-    chosen = select(behaviours, th)
+    covering = cover(behaviours, 6 if not th else 30)
+    chosen = covering + [b for b in select(behaviours, th) if b not in covering]
+    c.cov["stages"]["MC:SIM+GEN"]["features_covered"] = sorted(
+        {"/".join(str(x) for x in f) for b in chosen for f in features(b)})
     sched = os.path.join(c.work, "schedules.ndjson")
     with open(sched, "w") as f:
         for i, b in enumerate(chosen):
